@@ -254,7 +254,7 @@ PROPS = {
                       "duration d (or --as-total) must satisfy first + d = second on the timeline; a recurrence's printed lines, read back, "
                       "must be the series under the calendar selected by --calendar / ISODATETIMECALENDAR; malformed arguments in every slot must give a non-zero exit with a message and no traceback.",
         "drivers": ["c19"],
-        "mc": [{"module": "MC_C15.tla", "cfg": "MC_C19.cfg"}, {"module": "MC_C15.tla", "cfg": "MC_C19_twin1.cfg", "expect_violation": True}], "expect_ops": ["CliPoint", "CliDiff", "CliRec", "CliBad"],
+        "mc": [{"module": "MC_C15.tla", "cfg": "MC_C19.cfg"}, {"module": "MC_C15.tla", "cfg": "MC_C19_twin1.cfg", "expect_violation": True}], "expect_ops": ["CliPoint", "CliDiff", "CliRec", "CliBad", "CliTotal"],
         "rule": "one case = one argument vector; all non-trivial (boundary dates, every notation, offsets of either sign incl. -P spellings)",
         "assumptions": TRUST + ["DurationParser / TimePointParser read back the CLI's own output (validated by C07, C10)"],
     },
